@@ -53,7 +53,7 @@ def gen_case(rng, tier):
     elif r < 0.85:
         max_n = 12
     else:
-        max_n = 40 if tier == "quick" else rng.choice((40, 80, 150))
+        max_n = rng.choice((40, 40, 40, 90)) if tier == "quick" else rng.choice((40, 80, 150))
     A, B = dgmgen.gen_pair(rng, max_n, allow_inf=False)
     k = rng.randint(2, 5 if max_n <= 12 else 2)
     # short call history before the pair under test (same total size, other split; or the swapped pair)
